@@ -263,9 +263,12 @@ func runC17(rc *RunCtx) {
 			if r.OK() {
 				live = append(live, w)
 				if rc.Chance(0.2) {
-					// first let somebody join, then re-post the same key in the same block
-					s.ProveHonest(provs[rc.Intn(4)], w)
-					if _, r2 := s.PostFile(o, f, int64(1+rc.Intn(4)), exp, -1); r2.OK() {
+					// first let one to three providers join, then re-post the same key in the same block (often with a smaller
+					// replication limit than the number that joined)
+					for _, pi := range rc.Rng.Perm(4)[:1+rc.Intn(3)] {
+						s.ProveHonest(provs[pi], w)
+					}
+					if _, r2 := s.PostFile(o, f, int64(1+rc.Intn(3)), exp, -1); r2.OK() {
 						paths["same-key-repost-with-prover"] = true
 					}
 				}
